@@ -46,7 +46,7 @@ ASSUMPTIONS = [
 
 
 def run_policies(run, tier, seed, only):
-    budget = 40_000 if tier == "quick" else 1_500_000
+    budget = 60_000 if tier == "quick" else 500_000
     jobs = []
     depth = {}
     for name in POL.CONFIGS:
